@@ -42,18 +42,37 @@ def mk_list(raws):
     return PolyhedralTermList([mk_term(r) for r in raws])
 
 
+class BuildCrash(ValueError):
+    """the contract constructor of the tree under test raised something that is not a ValueError"""
+
+
+_BUILD_NOTES = 0
+
+
 def mk_contract(d, simplify=True):
     """d = {'inv','outv','a','g'} with raw term lists -> PolyhedralIoContract."""
     from pacti.contracts import PolyhedralIoContract
     from pacti.iocontract import Var
 
-    return PolyhedralIoContract(
-        assumptions=mk_list(d["a"]),
-        guarantees=mk_list(d["g"]),
-        input_vars=[Var(v) for v in d["inv"]],
-        output_vars=[Var(v) for v in d["outv"]],
-        simplify=simplify,
-    )
+    try:
+        return PolyhedralIoContract(
+            assumptions=mk_list(d["a"]),
+            guarantees=mk_list(d["g"]),
+            input_vars=[Var(v) for v in d["inv"]],
+            output_vars=[Var(v) for v in d["outv"]],
+            simplify=simplify,
+        )
+    except ValueError:
+        raise
+    except Exception as e:  # noqa: BLE001
+        # the generators use the constructor as a filter for their candidates ("except ValueError: next candidate"); a tree under test whose
+        # constructor raises something else must not end the check as a machinery failure -- the candidate is passed over like an
+        # unsatisfiable one (the constructor's exception classes are judged where contracts are built as EVENTS: C07, C10, C14)
+        global _BUILD_NOTES
+        _BUILD_NOTES += 1
+        if _BUILD_NOTES <= 2:
+            print("DRIVER-NOTE: the contract constructor raised %s (%s) on a generated candidate; candidate passed over" % (type(e).__name__, str(e)[:80]), flush=True)
+        raise BuildCrash("the constructor raised %s: %s" % (type(e).__name__, e)) from e
 
 
 def raw_str(raw):
